@@ -10,6 +10,7 @@ import (
 	"bytes"
 	"fmt"
 	"runtime"
+	"sort"
 	"sync"
 	"testing"
 	"time"
@@ -62,6 +63,26 @@ func c09Setup() {
 	})
 }
 
+var c09Longest []int
+
+func c09LongestDocs() []int {
+	if c09Longest == nil {
+		a := assets()
+		idx := make([]int, len(a))
+		for i := range idx {
+			idx[i] = i
+		}
+		sort.Slice(idx, func(i, j int) bool {
+			if len(a[idx[i]].Content) != len(a[idx[j]].Content) {
+				return len(a[idx[i]].Content) > len(a[idx[j]].Content)
+			}
+			return idx[i] < idx[j]
+		})
+		c09Longest = idx[:5]
+	}
+	return c09Longest
+}
+
 func c09Gen(t *rapid.T) interface{} {
 	c := &c09Case{MaxProcs: lib.PickInt(t, []int{2, 4, 16}, "maxprocs")}
 	switch lib.IntN(t, 0, 2, "classifierState") {
@@ -79,6 +100,13 @@ func c09Gen(t *rapid.T) interface{} {
 				{Kind: "del", Pos: lib.IntN(t, 0, 5000, "p")}, {Kind: "delline", Pos: lib.IntN(t, 0, 500, "p")}}
 		}
 		c.Pool = append(c.Pool, recipe{Segs: []seg{s}})
+	}
+	if lib.IntN(t, 0, 3, "withVeryLongDocument") == 0 {
+		// one of the five longest corpus documents, lightly edited: code paths that depend on the size of the texts
+		// (long diffs) run next to the ordinary ones
+		c.Pool = append(c.Pool, recipe{Segs: []seg{{Kind: "doc", Doc: c09LongestDocs()[lib.IntN(t, 0, 4, "longDoc")],
+			Edits: []edit{{Kind: "suboov", Pos: lib.IntN(t, 0, 9000, "p"), Arg: 1}, {Kind: "del", Pos: lib.IntN(t, 0, 9000, "p")}, {Kind: "insoov", Pos: lib.IntN(t, 0, 9000, "p"), Arg: 2}}}}})
+		np++
 	}
 	g := lib.PickInt(t, []int{2, 4, 8, 16, 32, 64}, "goroutines")
 	if (c.Trace > 0 || c.Cold) && g < 8 {
